@@ -94,7 +94,7 @@ BASE_FP = {
     "jedi/api/project.py:Project.__init__": "2d57fdb059bcfe47",
     "jedi/api/project.py:Project._get_base_sys_path": "3b64cea3ba579917",
     "jedi/api/project.py:get_default_project": "2a6a031af624610d",
-    "jedi/api/environment.py:Environment._get_subprocess": "3ea2f3a0e4bef14e",
+    "jedi/api/environment.py:Environment._get_subprocess": "17f2596405ee42c2",
     "jedi/inference/compiled/subprocess/__init__.py:CompiledSubprocess._get_process": "3afb511dc60fbfd3",
 }
 INTENSIFY = [1]
